@@ -48,6 +48,38 @@ def gen_instances(tier, seed):
     return out
 
 
+def gen_animal_instances(tier, seed):
+    """small feed-maximising rounds: pinned human consumption, ceilings, stored food and crops as the feed-capable foods"""
+    rng = random.Random(7000 + seed)
+    out = []
+    count = 30 if tier == "quick" else 240
+    while len(out) < count:
+        n = rng.choice([2, 3, 3, 4] if tier == "quick" else [2, 3, 3, 4, 4, 5])
+        waste = rng.choice([0, 0, 50])
+        g = 2 if waste else 1
+        sf = rng.choice([0, 4, 8, 12])
+        crops = [rng.choice([0, 0, 4, 6]) for _ in range(n)]
+        h_sf, h_crop = [], []
+        s_left, c_left = sf, 0
+        for m in range(n):  # pinned human consumption that is itself feasible
+            c_left += crops[m]
+            a = rng.choice([0, 1, 2])
+            a = min(a, s_left // g)
+            b = min(rng.choice([0, 0, 1, 2]), c_left // g)
+            h_sf.append(a)
+            h_crop.append(b)
+            s_left -= g * a
+            c_left -= g * b
+        top = rng.choice([2, 3, 5])
+        max_f = sorted([rng.choice([0, top, top, top + 1]) for _ in range(n)], reverse=rng.random() < 0.7)
+        max_b = [rng.choice([0, 1, 2]) if m < rng.choice([0, 1, n]) else 0 for m in range(n)]
+        out.append(dict(mode="animals", n=n, need=1000, sf=sf, crops=crops, meat=[0] * n, scp=[0] * n, store=True, waste=waste, feed=[0] * n,
+                        hSf=h_sf, hCrop=h_crop, hMeat=[0] * n, maxF=max_f, maxB=max_b))
+    for i, inst in enumerate(out):
+        inst["id"] = 10000 + i
+    return out
+
+
 def solve_all(insts):
     wd = C.workdir()
     n = min(C.NCPU, len(insts))
@@ -74,8 +106,10 @@ def run(pid, tier):
                 "unreachable), its allocation vs Ledger.tla with OptimumAchieved; plus OptimumAchieved on every people-maximising round "
                 "of the corpus; distinct = instances + corpus rounds")
     insts = gen_instances(tier, C.seed())
+    a_insts = gen_animal_instances(tier, C.seed())
     try:
         sols = solve_all(insts)
+        a_sols = solve_all(a_insts)
     except Exception as ex:  # noqa
         out.machinery.append(str(ex)[-1500:])
         return out.finish()
@@ -107,15 +141,55 @@ def run(pid, tier):
         t["hdr"]["inst"] = i
         t["hdr"]["z"] = r["z"]
         traces.append(t)
+    a_ok = {}
+    for r in a_sols:
+        i = r["inst"]
+        if not r.get("ok"):
+            out.extra["animal_round_failed"] = out.extra.get("animal_round_failed", 0) + 1
+            a_ok[i["id"]] = None
+        else:
+            a_ok[i["id"]] = r["z"]
+            fake_run = dict(job=dict(cc="inst%d" % i["id"], preset="small-animals"))
+            t = ledger.lp_trace(fake_run, r["lp"])
+            t["hdr"]["inst"] = i
+            t["hdr"]["z"] = r["z"]
+            traces.append(t)
+        batch.append(dict(id=i["id"], n=i["n"], g=2 if i["waste"] == 50 else 1, sf=i["sf"], crops=i["crops"], meat=i["meat"], scp=i["scp"], feed=i["feed"],
+                          store=True, mode="animals", target=0, hSf=i["hSf"], hCrop=i["hCrop"], maxF=i["maxF"], maxB=i["maxB"]))
     wd = C.workdir()
     bf = os.path.join(wd, "opt_batch.json")
     json.dump(batch, open(bf, "w"))
     r = C.run_tlc("MC_Optimum", cfg="MC_Optimum.cfg", workers=1, env={"INST_FILE": bf}, timeout=6000, heap="8g")
     out.add_tlc("MC_Optimum", r)
     reached = None
+    best = []
     for line in r.out.splitlines():
         if line.startswith('"{') and "Reached" in line:
-            reached = json.loads(json.loads(line))["items"]
+            rep_ = json.loads(json.loads(line))
+            reached = rep_["items"]
+            best = rep_.get("best", [])
+    a_by_id = {i["id"]: i for i in a_insts}
+    n_a = 0
+    for b in best:
+        if b["mode"] != "animals":
+            continue
+        n_a += 1
+        inst = a_by_id[b["id"]]
+        z = a_ok.get(b["id"])
+        fam = "animals:waste%d" % inst["waste"]
+        if z is None:
+            if b["score"] >= 0:
+                out.violation("OptimizerFailsOnFeasibleInstance:%s" % fam, "animal-round instance %d: the Optimizer failed although a feasible "
+                              "allocation exists (score %d)" % (b["id"], b["score"]), dict(instance=inst))
+            continue
+        if b["score"] > 3 * z * (1 + 2e-4) + 1e-3:
+            out.violation("BetterAllocationExists:%s" % fam,
+                          "animal-round instance %d: the Optimizer reported %.5f (x3 = %.4f) but a feasible allocation scores 2*feed + biofuel = %d"
+                          % (b["id"], z, 3 * z, b["score"]), dict(instance=inst, reported=z, better_score=b["score"]))
+        elif b["score"] < 0:
+            out.violation("ReportedOptimumNotAchievable:%s" % fam, "animal-round instance %d: the specification finds no feasible allocation "
+                          "although the Optimizer reported %.5f" % (b["id"], z), dict(instance=inst, reported=z))
+    out.extra["animal_instances"] = n_a
     by_id = {i["id"]: i for i in insts}
     zs = {s["inst"]["id"]: s["z"] for s in sols if s.get("ok")}
     if reached is None:
@@ -123,6 +197,8 @@ def run(pid, tier):
     else:
         got = {(x["id"], x["mode"]): x for x in reached}
         for b in batch:
+            if b["mode"] == "animals":
+                continue
             key = (b["id"], b["mode"])
             inst = by_id[b["id"]]
             fam = "waste%d:%s:%s" % (inst["waste"], "storage" if inst["store"] else "first-year-only", "feed" if any(inst["feed"]) else "nofeed")
